@@ -9,6 +9,7 @@ import os
 import sys
 import uuid
 from collections.abc import Mapping, Sequence
+from threading import RLock
 from typing import Callable, FrozenSet
 from typing import Sequence as Sequence_t
 
@@ -221,12 +222,16 @@ class JSONCollection(SyncedCollection):
         # When setting the filename we must also remap the locks.
         with self._thread_lock:
             if type(self)._threading_support_is_active:
-                old_lock_id = self._lock_id
+                # Other collections may still be bound to the old file, so its
+                # lock must stay registered, and collections already bound to
+                # the new file must keep sharing its lock with this one. The
+                # new entry must exist before the name changes (the filename
+                # is the lock id).
+                with type(self)._cls_lock:
+                    if value not in type(self)._locks:
+                        type(self)._locks[value] = RLock()
 
             self._filename = value
-
-            if type(self)._threading_support_is_active:
-                type(self)._locks[self._lock_id] = type(self)._locks.pop(old_lock_id)
 
     @property
     def _lock_id(self):
